@@ -127,6 +127,7 @@ def liveMonitors (bind : String) (use : Bool) (pm : List Nat) (req : Option Nat)
     (ls : List String) : List String :=
   let hd := firstWith ls "live "
   if hd.startsWith "live error" then [] else
+  if hd.startsWith "live diverge" then [s!"live: start-up does not terminate: the starting thread burnt its CPU limit inside pika::init ({ctx})"] else
   if !hd.startsWith "live ok" then [s!"live: no result ({ctx})"] else
   let kv := kvOf hd
   let os0 := look kv "os0"
